@@ -8,9 +8,9 @@ PID = 'C20'
 sys.setrecursionlimit(200000)
 
 
-def compile_histories(prog, others, seed, tmp):
+def compile_histories(prog, others, seed, tmp, flags=()):
     out = os.path.join(tmp, 'h%s_%s.pk' % (seed, hashlib.sha1(prog.encode()).hexdigest()[:8]))
-    env = dict(os.environ, PYTHONHASHSEED=str(seed), NMFU_VERIF='1')
+    env = dict(os.environ, PYTHONHASHSEED=str(seed), NMFU_VERIF='1', C20_FLAGS=' '.join(flags))
     r = subprocess.run(['python3-vt', '-m', 'engines.c20_sub', out, prog] + others, cwd=chk.VERIF, env=env, capture_output=True, text=True, timeout=600)
     if r.returncode != 0 or not os.path.exists(out):
         return None, r.stderr[-400:]
@@ -28,7 +28,7 @@ def work(job):
         st = stepcmp.StepStats()
         runs = []
         for sd in job['seeds']:
-            res, err = compile_histories(job['path'], job['others'], sd, tmp)
+            res, err = compile_histories(job['path'], job['others'], sd, tmp, job.get('flags', ()))
             if res is None:
                 st.d['harness_errors'].append(f"{job['label']} seed {sd}: subprocess failed: {err}")
                 continue
@@ -102,6 +102,10 @@ def main(tier, replay_path):
         others = rnd.sample([f for f in files if f != p], 3 if tier == 'quick' else 6)
         label = os.path.relpath(p, chk.REPO) if p.startswith(chk.REPO) else os.path.relpath(p, chk.VERIF)
         jobs.append({'label': label, 'path': p, 'src': nm.read(p), 'others': others, 'seeds': seeds, 'K': 4 if tier == 'quick' else 6, 'max_paths': 2000 if tier == 'quick' else 8000})
+    # optimisation passes iterate over sets too: small programs are also compiled at -O3 under every seed/history
+    for j in list(jobs):
+        if len(j['src']) < 1500 and (tier != 'quick' or '/corpus/' in j['path']):
+            jobs.append(dict(j, label=j['label'] + ' -O3', flags=('-O3',), seeds=j['seeds'] + ([4, 7] if tier == 'quick' else [])))
     jobs.sort(key=lambda j: -len(j['src']))
     orig = l3check.work
     l3check.work = work
